@@ -224,6 +224,7 @@ class Program:
         self.promoted = {}        # (raw path, idx) -> Body
         self.adts = {}
         self.crates = {}
+        self.raw_index = {}       # raw def path -> Body (non-promoted)
 
     def add_crate(self, data):
         crate = data["crate"]
@@ -235,6 +236,7 @@ class Program:
                 self.promoted[(b.raw, b.promoted)] = b
             else:
                 self.by_key.setdefault(b.key, []).append(b)
+                self.raw_index[b.raw] = b
         for a in data.get("adts", []):
             self.adts[a["path"]] = a
 
@@ -254,10 +256,7 @@ class Program:
         return [b for b in self.bodies if b.promoted is None and rx.search(b.key)]
 
     def by_raw(self, raw):
-        for b in self.bodies:
-            if b.raw == raw and b.promoted is None:
-                return b
-        return None
+        return self.raw_index.get(raw)
 
 
 def load_program(config, th=None):
